@@ -263,6 +263,121 @@ def child(case):
     return out
 
 
+def loopback_child(case):
+    '''The same property against a real aiohttp.web server on 127.0.0.1: the faults are the ones aiohttp really raises
+    (socket closed without a reply, RST, 503 text, body shorter than its Content-Length, warming-up reply, truncated stream).'''
+    import json
+    import socket
+    import struct
+    from aiohttp import web
+    from exv import harness
+    from electrumx.server.daemon import Daemon, DaemonError
+    harness.install_log_capture()
+    coin = harness.install_coin()
+    out = {'evaluations': 0, 'counters': {}, 'sigs': [], 'violations': []}
+    c = out['counters']
+    plan, log = [], []
+    block = bytes(range(256)) * 400
+    tmp = scratch_dir('exv-c18l-')
+
+    def jr(obj):
+        return web.Response(body=json.dumps(obj).encode(), headers={'Content-Type': 'application/json'})
+
+    async def handler(request):
+        body = await request.read()
+        f = plan.pop(0) if plan else None
+        log.append(f)
+        if f == 'close':
+            request.transport.close()
+            return web.Response()
+        if f == 'rst':
+            sock = request.transport.get_extra_info('socket')
+            sock.setsockopt(socket.SOL_SOCKET, socket.SO_LINGER, struct.pack('ii', 1, 0))
+            request.transport.abort()
+            return web.Response()
+        if f == '503':
+            return web.Response(status=503, text='Work queue depth exceeded')
+        if f == 'shortbody':
+            resp = web.StreamResponse(headers={'Content-Type': 'application/json', 'Content-Length': '1000'})
+            await resp.prepare(request)
+            await resp.write(b'{"result": 1')
+            request.transport.close()
+            return resp
+        if request.path.startswith('/rest/block/'):
+            resp = web.StreamResponse(headers={'Content-Type': 'application/octet-stream'})
+            await resp.prepare(request)
+            if f == 'truncblock':
+                await resp.write(block[:30000])
+                request.transport.close()
+                return resp
+            await resp.write(block)
+            await resp.write_eof()
+            return resp
+        req = json.loads(body)
+
+        def one(r):
+            return {'result': [len(log), r.get('params')], 'error': None, 'id': r['id']}
+        if f == 'warm':
+            if isinstance(req, list):
+                return jr([one(r) if i else {'result': None, 'error': {'code': -28, 'message': 'warming up'}, 'id': r['id']} for i, r in enumerate(req)])
+            return jr({'result': None, 'error': {'code': -28, 'message': 'warming up'}, 'id': req['id']})
+        return jr([one(r) for r in req] if isinstance(req, list) else one(req))
+
+    async def main():
+        app = web.Application()
+        app.router.add_route('*', '/{tail:.*}', handler)
+        runner = web.AppRunner(app)
+        await runner.setup()
+        site = web.TCPSite(runner, '127.0.0.1', 0)
+        await site.start()
+        port = site._server.sockets[0].getsockname()[1]
+        try:
+            async with Daemon(coin, f'http://u:p@127.0.0.1:{port}/', init_retry=0.005, max_retry=0.02) as d:
+                for (call, faults) in case['runs']:
+                    plan[:] = list(faults)
+                    n0 = len(log)
+                    fname = os.path.join(tmp, 'blk')
+                    try:
+                        if call == 'single':
+                            r = await asyncio.wait_for(d._send_single('getblockcount'), 20)
+                            ok = r == [len(log), None]
+                        elif call == 'vector':
+                            r = await asyncio.wait_for(d.block_hex_hashes(3, 4), 20)
+                            ok = r == [[len(log), [h]] for h in range(3, 7)]
+                        else:
+                            r = await asyncio.wait_for(d.get_block('ab' * 32, fname), 20)
+                            with open(fname, 'rb') as fh:
+                                ok = r == len(block) and fh.read() == block
+                    except Exception as e:    # noqa
+                        out['violations'].append({'key': f'loopback/escapes-{type(e).__name__}', 'what': f'{call} with real faults {faults} ended with {e!r}',
+                                                  'witness': {'call': call, 'faults': list(faults)}})
+                        continue
+                    out['evaluations'] += 1
+                    c['loopback_calls'] = c.get('loopback_calls', 0) + 1
+                    c['loopback_real_faults'] = c.get('loopback_real_faults', 0) + len(faults)
+                    attempts = len(log) - n0
+                    if not ok:
+                        out['violations'].append({'key': 'loopback/wrong-result', 'what': f'{call} after real faults {faults} returned {str(r)[:100]} '
+                                                  f'(the answer of attempt {len(log)} was expected)', 'witness': {'call': call, 'faults': list(faults)}})
+                    if attempts != len(faults) + 1:
+                        out['violations'].append({'key': 'loopback/attempt-count', 'what': f'{call} with faults {faults} made {attempts} attempts, expected '
+                                                  f'{len(faults) + 1}', 'witness': {'call': call, 'faults': list(faults)}})
+                    out['sigs'].append(digest(('loop', call, faults)))
+        finally:
+            await runner.cleanup()
+    try:
+        asyncio.run(main())
+    finally:
+        shutil.rmtree(tmp, ignore_errors=True)
+    seen, vs = set(), []
+    for v in out['violations']:
+        if v['key'] not in seen:
+            seen.add(v['key'])
+            vs.append(v)
+    out['violations'] = vs
+    return out
+
+
 def gen_runs(tier, seed):
     rng = random.Random(seed * 1000003 + 18)
     maxlen = 5 if tier == 'thorough' else 3
@@ -305,6 +420,15 @@ def run(tier, seed, replay=None):
     cases = [{'seed': seed * 31 + i, 'wseed': 5, 'runs': runs[i:i + per], 'sample': i == 0, 'chunk': (700, 64, 4096)[(i // per) % 3]}
              for i in range(0, len(runs), per)]
     rep.absorb(run_cases(child, cases, watchdog=900), 'batch')
+    if not replay:
+        kinds = ['close', 'rst', '503', 'shortbody', 'warm']
+        words = [()] + [(a,) for a in kinds] + [(a, b) for a in kinds for b in kinds]
+        if tier == 'thorough':
+            words += [(a, b, cc) for a in kinds for b in kinds for cc in kinds]
+        lruns = [(call, w) for w in words for call in ('single', 'vector')]
+        lruns += [('block', w) for w in [(), ('close',), ('rst',), ('503',), ('truncblock',), ('close', 'truncblock'), ('truncblock', 'truncblock', 'rst')]]
+        per = max(1, len(lruns) // 8 + 1)
+        rep.absorb(run_cases(loopback_child, [{'runs': lruns[i:i + per]} for i in range(0, len(lruns), per)], watchdog=300), 'loopback batch')
     c = rep.counters
     if not replay:
         rep.floor('results_compared', c['results_compared'], 1000)
@@ -312,6 +436,8 @@ def run(tier, seed, replay=None):
         rep.floor('failovers', c['failovers'], 100)
         rep.floor('genuine_rpc_errors', c['genuine_rpc_errors'], 100)
         rep.floor('block_files_compared', c['block_files_compared'], 100)
+        rep.floor('loopback_calls', c['loopback_calls'], 60)
+        rep.floor('loopback_real_faults', c['loopback_real_faults'], 100)
     rep.exhaustive = True
     return rep.finish(
         rule=f'every fault word of length <= {3 if tier == "quick" else 4} over {FAULTS} (+truncated block streams; longer words '
@@ -320,8 +446,11 @@ def run(tier, seed, replay=None):
              'out-of-range and rejected-broadcast RPC errors) x 1..3 URLs x retry settings; the world changes at every HTTP '
              'attempt. Offline checker over the attempt log: result == answer at the successful attempt (positional), genuine '
              'RPC errors raise DaemonError with no further attempt, no attempt after a good reply, URL changes round-robin and '
-             'only after the back-off reached its maximum, bounded consecutive attempts per URL, block file == block. '
+             'only after the back-off reached its maximum, bounded consecutive attempts per URL, block file == block. The same '
+             'call kinds also run in real time against a real aiohttp.web server on 127.0.0.1 whose faults are real (socket closed '
+             'without reply, RST, 503 text, body shorter than Content-Length, warming-up, truncated block stream): fault words <= 2 '
+             '(3 in thorough). '
              'distinct = (call, fault word, urls, retry setting, down set)',
         min_distinct=1 if replay else 2,
-        assumptions=['faults are raised by the simulated HTTP session with the exception types aiohttp raises',
+        assumptions=['simulated faults use aiohttp\'s exception classes; the loopback part uses real sockets but no real timeouts (would need minutes)',
                      'unbounded fault sequences and a daemon that reorders batch replies are out of reach'])
